@@ -211,6 +211,10 @@ def fold_loop(I, s: ast.For, k: int, rule: Fold):
                 I.obligations.append(Obligation(f"{pname}.{v}", list(p.pc), got.v == want.v, where, "R",
                                                 f"loop body ≡ step of {rule.fn} on `{v}`"))
             # temporaries and other variables must not leak: non-state variables assigned in the body are dead after the loop
+        for ob in I.obligations:
+            if ob.name.startswith(f"R:{tag}.body"):
+                for k_, v_ in {**env0, **senv}.items():
+                    ob.vars.setdefault(k_, v_)
         if rule.raises_fold:
             l0 = I.fresh(lsort, "l")
             r0 = I.fresh(lsort, "r")
